@@ -368,7 +368,8 @@ def run_ties(res, rng, quick):
 
 LINK_TAGS = ['px', 'py', 'pz', 'p', 'so', 's', 'sx', 'sy', 'sz', 'c/x', 'c/y',
              'c/z', 'cx', 'cy', 'cz', 'kx', 'ky', 'kz', 'k/x', 'k/y', 'k/z',
-             'kx1', 'ky1', 'kz1', 'k/x1', 'k/y1', 'k/z1', 'sq', 'gq']
+             'kx1', 'ky1', 'kz1', 'k/x1', 'k/y1', 'k/z1', 'sq', 'gq',
+             'p3', 'x', 'y', 'z', 'x2', 'y2', 'z2', 'tx', 'ty', 'tz', 'tx5']
 
 
 def gen_tr(rng):
